@@ -214,11 +214,20 @@ func matrixCmd(args []string) error {
 				break
 			}
 		}
-		for _, p := range pubs {
+		for pi, p := range pubs {
 			r := ciexyy.Color{X: float32(p.rx), Y: float32(p.ry), YY: 1}
 			g := ciexyy.Color{X: float32(p.gx), Y: float32(p.gy), YY: 1}
 			b := ciexyy.Color{X: float32(p.bx), Y: float32(p.by), YY: 1}
 			w := ciexyy.Color{X: float32(p.wx), Y: float32(p.wy), YY: 1}
+			switch pi % 4 { // luminances: the white's scales the matrix, the primaries' must not matter
+			case 1:
+				w.YY = 0.8
+			case 2:
+				w.YY = float32(0.25 + 1.5*rng.Float64())
+				r.YY, g.YY, b.YY = 0.5, 2, float32(0.1+rng.Float64())
+			case 3:
+				r.YY, g.YY, b.YY = float32(0.2126), float32(0.7152), float32(0.0722)
+			}
 			if b.Y <= 0 { // the generator divides by y: negative / zero y are outside "inside the chromaticity diagram"
 				continue
 			}
@@ -231,7 +240,7 @@ func matrixCmd(args []string) error {
 				}
 				return out
 			}
-			sink.put(dy{"kind": "genmatrix", "p": dy{"r": chroma(r), "g": chroma(g), "b": chroma(b), "w": chroma(w)}, "to": rows(to), "from": rows(from)})
+			sink.put(dy{"kind": "genmatrix", "p": dy{"r": chroma(r), "g": chroma(g), "b": chroma(b), "w": chroma(w), "wyy": dyadic(float64(w.YY))}, "to": rows(to), "from": rows(from)})
 		}
 		// 3x3 algebra on dyadic matrices: entries k / 2^20 in [-4, 4]
 		const q = 20
@@ -265,9 +274,68 @@ func matrixCmd(args []string) error {
 			}
 			return out
 		}
+		// structured operands: diagonal, identity, permutation, triangular, sparse - on either side
+		structured := func(kind int) (matrix.Matrix3, [][]dy) {
+			var m matrix.Matrix3
+			ints := make([][]dy, 3)
+			for r := 0; r < 3; r++ {
+				ints[r] = []dy{intEntry(0), intEntry(0), intEntry(0)}
+			}
+			set := func(r, c int, k int64) { m[c][r] = float64(k) / (1 << q); ints[r][c] = intEntry(k) }
+			rk := func() int64 {
+				k := rng.Int63n(8<<q+1) - 4<<q
+				if k == 0 {
+					k = 1 << q
+				}
+				return k
+			}
+			switch kind % 6 {
+			case 0: // non-uniform diagonal
+				set(0, 0, rk())
+				set(1, 1, rk())
+				set(2, 2, rk())
+			case 1: // identity
+				set(0, 0, 1<<q)
+				set(1, 1, 1<<q)
+				set(2, 2, 1<<q)
+			case 2: // permutation with scales
+				set(0, 1, rk())
+				set(1, 2, rk())
+				set(2, 0, rk())
+			case 3: // upper triangular
+				set(0, 0, rk())
+				set(0, 1, rk())
+				set(0, 2, rk())
+				set(1, 1, rk())
+				set(1, 2, rk())
+				set(2, 2, rk())
+			case 4: // lower triangular
+				set(0, 0, rk())
+				set(1, 0, rk())
+				set(1, 1, rk())
+				set(2, 0, rk())
+				set(2, 1, rk())
+				set(2, 2, rk())
+			case 5: // uniform scale
+				k := rk()
+				set(0, 0, k)
+				set(1, 1, k)
+				set(2, 2, k)
+			}
+			return m, ints
+		}
 		for i := 0; i < nm; i++ {
 			a, ai := randMat()
 			b, bi := randMat()
+			switch i % 5 {
+			case 1:
+				a, ai = structured(i / 5)
+			case 2:
+				b, bi = structured(i / 5)
+			case 3:
+				a, ai = structured(i / 5)
+				b, bi = structured(i/5 + 1 + i/30)
+			}
 			if math.Abs(det(a)) >= 1e-3 {
 				var inv matrix.Matrix3
 				pan := false
